@@ -122,6 +122,7 @@ func specPlain6(p *packets.FrameParser) bool {
 // Entry point (C10): the UDP socket that reserves the source port, the capture source and the raw sink are all closed
 // again on every path; handles that were open before the call are untouched; an error comes without a result.
 //@ func (*UDPv4).Traceroute
+//@ ensures[ghost.mono]  sendN >= old(sendN)
 //@ safety C10
 //@ requires[pre.nonnil]       u != nil && sendN >= 0
 //@ ensures[C10.entry.atom]    ret1 != nil ==> ret0 == nil
